@@ -4,3 +4,5 @@ open Genq.Ws
 #print axioms C14_closed_exactly_once
 #print axioms C14_unsubscribe_ends
 #print axioms C14_pinned_next_after_complete_witness
+#print axioms C14_prefix_in_order
+#print axioms C14_at_most_one_in_flight
